@@ -2,11 +2,12 @@
    Each input line:  <k> <sexp>      where sexp ::= nat | '(' sexp* ')'
    Each output line: the sexp returned by Model.dispatch k sexp.            *)
 open Model
+(* Model may define its own `string`, `list`... types (extracted inductives): refer to OCaml's via Stdlib *)
 
 let rec nat_of_int n acc = if n <= 0 then acc else nat_of_int (n - 1) (S acc)
 let rec int_of_nat n acc = match n with O -> acc | S m -> int_of_nat m (acc + 1)
 
-let parse (s : string) (pos : int ref) : sx =
+let parse (s : Stdlib.String.t) (pos : int ref) : sx =
   let n = String.length s in
   let rec skip () = while !pos < n && (s.[!pos] = ' ' || s.[!pos] = '\t') do incr pos done
   and one () : sx =
